@@ -541,11 +541,31 @@ def c09(W, replay=None):
                     if stname == "redis":
                         scen += redis_cmd_variants(sc)
         scen += logout_histories(W, 300 if thorough else 40)
-        scen += discovery_family(W) + dup_chain_family(W) + decoy_family(W)
+        scen += discovery_family(W) + dup_chain_family(W) + decoy_family(W) + held_call_family(W)
     return sys_pipeline("C09", W, scen, None, [
         "interleavings are at store-call / token-endpoint-call / key-lookup granularity (the gates of the harness)",
         "a check whose last store access preceded the logout's removal and which is answered later is treated as an answer delayed in the network",
     ], replay=replay)
+
+
+def held_call_family(W):
+    """A Redis store call of an in-flight check parked between two of its Redis commands while a logout runs (sub-call interleavings)."""
+    res = []
+    long = {"mode": "honest", "rt": True, "expiresIn": 1000, "idLife": 1000}
+    short = {"mode": "honest", "rt": True, "rotate": True, "expiresIn": 60, "idLife": 60}
+    for k in (1, 2, 3):
+        for mode in ("fresh", "refresh"):
+            ans = long if mode == "fresh" else short
+            steps = [{"op": "browse", "b": "b1", "f": "f1", "url": 1, "ans": ans}]
+            # time passes before the in-flight request (whatever a store may remember from the login is no longer recent)
+            steps.append({"op": "tick", "d": 61 if mode == "refresh" else 7})
+            steps += [{"op": "start", "c": "inflight", "b": "b1", "f": "f1", "kind": "app", "cookie": "sid:1", "url": 1, "ans": ans},
+                      {"op": "step", "c": "inflight", "dir": {"fault": "hold%d" % k}},      # its first store call parks after k Redis commands
+                      {"op": "check", "c": "logout", "b": "b1", "f": "f1", "kind": "logout", "cookie": "sid:1"},
+                      {"op": "finish", "c": "inflight", "ans": ans},
+                      dict(PROBE_APP, c="probe1"), dict(PROBE_APP, c="probe2")]
+            res.append({"id": "c09/held/%s/hold%d" % (mode, k), "cfg": {"filters": [dict(F1, store="redis", abs=5000, idle=3000)]}, "steps": steps, "tags": ["heldCall"]})
+    return res
 
 
 def logout_histories(W, n):
